@@ -1,5 +1,11 @@
 """C11 — whatever the indexer tokenizes, the query language can find (DESIGN.md section 7, C11)."""
+import os
+
 import vcheck
+
+# the repository's logger writes an init line to stderr at import time; `hC11 -consts` output is captured
+# together with stderr, so keep the logger quiet
+os.environ["LOG_LEVEL"] = "fatal"
 
 PROP = "C11"
 
